@@ -20,6 +20,8 @@ type engCfg struct {
 	trialDays   int  // first days without debiting
 	paramChanges bool // the administrator changes parameters (incl. the promises algorithm) during the run
 	strictDaily bool // C17: exactly one update per day, same-day in-order check-ins, no traveller close/reopen
+	kills       bool // sessions that end cleanly (Release) and sessions that are killed (the database is closed without saving the administrator state), in any mix; not replayed by the model
+	faults      bool // storage faults are injected into some check-ins and proposals (they must fail and change nothing)
 	samePrefix  bool // all record keys start with the same hex digit: one table iterator visits them one after the other
 }
 
@@ -89,6 +91,9 @@ func pickEngParams(rng *Rng, cfg engCfg) flap.FlapParams {
 func genEngine(rng *Rng, workdir string, proj string, cfg engCfg) *engSession {
 	s := newEngSession(workdir, proj)
 	s.strictDaily = cfg.strictDaily
+	if cfg.faults {
+		s.frng = rng.Fork()
+	}
 	p := pickEngParams(rng, cfg)
 	s.setParams(p)
 	used := map[string]bool{}
@@ -120,6 +125,14 @@ func genEngine(rng *Rng, workdir string, proj string, cfg engCfg) *engSession {
 	}
 	for d := 0; d < cfg.days; d++ {
 		now := day * 86400
+		if cfg.kills && (d == 0 || rng.Chance(1, 4)) {
+			// the first session always ends cleanly, so that the parameters are on disk
+			if d == 0 || rng.Bool() {
+				s.restart()
+			} else {
+				s.kill()
+			}
+		}
 		if doRestart := rng.Chance(1, 4); cfg.restarts && doRestart {
 			s.restart()
 		}
